@@ -6,6 +6,7 @@ pub mod c03;
 pub mod c04;
 pub mod c05;
 pub mod c06;
+pub mod c07;
 pub mod mix;
 pub mod c08;
 pub mod c09;
@@ -23,6 +24,7 @@ pub fn lookup(id: &str) -> Option<(&'static str, fn(&mut Ctx))> {
         "C04" => ("C04", c04::run as fn(&mut Ctx)),
         "C05" => ("C05", c05::run as fn(&mut Ctx)),
         "C06" => ("C06", c06::run as fn(&mut Ctx)),
+        "C07" => ("C07", c07::run as fn(&mut Ctx)),
         "C08" => ("C08", c08::run as fn(&mut Ctx)),
         "C09" => ("C09", c09::run as fn(&mut Ctx)),
         "C10" => ("C10", c10::run as fn(&mut Ctx)),
